@@ -120,14 +120,15 @@ def elf_part(run, quick):
         small = n < n_coq
         conf_page = rng.choice([0x100, 0x400] if small else [0x100, 0x1000, 0x1000, 0x4000, 0x10000, 0x200, 0x2000])
         share = rng.random() < 0.4
-        s = EG.Synth(rng, cls=cls, order=order or rng.choice("<>"), machine=mach, page=conf_page, share=share, code=code,
+        incongruent = (not share) and rng.random() < 0.4
+        s = EG.Synth(rng, cls=cls, order=order or rng.choice("<>"), machine=mach, page=conf_page, share=share, code=code, incongruent=incongruent,
                      nseg=rng.randrange(1, 3) if small else None,
                      lead=0 if small or rng.random() < 0.4 else rng.randrange(0, 2 * conf_page))
         img = s.image
         run.count(("elf", img, conf_page), nontrivial=len(s.segs) >= 2 or any(g["memsz"] > g["filesz"] for g in s.segs))
         run.hist("elf_machine", str(mach))
         run.hist("page", hex(conf_page))
-        run.hist("layout", "share" if share else "page-disjoint")
+        run.hist("layout", "share" if share else "page-disjoint-incongruent" if incongruent else "page-disjoint")
         conf.System.pagesize = conf_page
         try:
             task = load_bytes(img)
@@ -287,8 +288,8 @@ def records_part(run, quick):
     """HEX / SREC / raw inputs through the raw loader"""
     import amoco.arch.x86.cpu_x86 as cpu
     rng = random.Random(run.seed * 7019 + 15)
-    for n in range(150 if quick else 3000):
-        kind = rng.choice(["hex", "srec", "raw"])
+    for n in range(360 if quick else 6000):
+        kind = rng.choice(["hex", "hex", "srec", "raw"])
         if kind == "hex":
             txt, recs, entry, lines = FG.gen_hex(rng)
             if isinstance(entry, tuple):
